@@ -31,6 +31,8 @@ CPLX = "json_to_models/dynamic_typing/complex.py"
 # summaries (the trusted base)
 def _s_merge_field_sets(ev: Evaluator, args, kwargs, self_val):
     sets = ev.iterate(args[0], "merge_field_sets")
+    if sets and all(isinstance(s, dict) for s in sets):
+        return NotImplemented       # real field sets (PERM-1): evaluate the function itself
     tags = set()
     for s in sets:
         if not isinstance(s, ModelDict):
@@ -391,6 +393,11 @@ def _worker(args):
 
 
 def rule_nf4(ctx: Ctx) -> RuleResult:
+    from ..rulecache import cached
+    return cached(ctx, "rule_nf4", lambda: _rule_nf4(ctx))
+
+
+def _rule_nf4(ctx: Ctx) -> RuleResult:
     rr = RuleResult("NF-4", "one pass of the simplifier reaches a normal form that a further pass leaves alone", floor=3)
     w = World(ctx)
     full = ctx.tier == "thorough"
